@@ -68,15 +68,20 @@ def set_shrinks(case: dict, path: tuple, simple_values):
             return  # only the simplest alternative
 
 
-def minimise(case, candidates_fn, still_fails, max_execs: int = 1500):
-    """Greedy fixpoint: take the first candidate that still fails, restart; stop when none does."""
+def minimise(case, candidates_fn, still_fails, max_execs: int = 1500, max_seconds: float = 150.0):
+    """Greedy fixpoint: take the first candidate that still fails, restart; stop when none does.
+    Best effort within an execution count and a wall-clock cap (the cap only limits how far the case is minimised;
+    whatever is reached is then verified by two replays in fresh interpreters)."""
+    import time
+
+    t_end = time.monotonic() + max_seconds
     execs = 0
     improved = True
-    while improved and execs < max_execs:
+    while improved and execs < max_execs and time.monotonic() < t_end:
         improved = False
         for cand in candidates_fn(case):
             execs += 1
-            if execs > max_execs:
+            if execs > max_execs or time.monotonic() > t_end:
                 break
             try:
                 ok = still_fails(cand)
